@@ -383,6 +383,8 @@ def run(ctx, progs):
         from . import c15
         c15.r4_commit_forms(ctx, P, D, R="C01.R5")
         r6r7_primitives(ctx, P)
+        from . import c10
+        c10.r1_min_aligned(ctx, P, D, R="C01.R8")
     ctx.config = None
 
 
